@@ -177,6 +177,47 @@ Theorem C11_weights_second_kill_repaired :
 Proof. exact second_kill_repaired. Qed.
 Print Assumptions C11_weights_second_kill_repaired.
 
+(* "Sampling can continue."  A training = directory creation + weights save (an op list over mkdir with /
+   without exist_ok, guarded mkdir, and the file operations).  For EVERY training op list accepted by
+   train_reusable, every content, every kill point (n training operations issued, open file cut at j):
+   in the directory the kill leaves - stale level / block directory, partial weights file, .old copy -
+   every operation of the same training, which the resumed sampler issues again, is enabled. *)
+Theorem C11_train_reusable_sound :
+  forall (B : Type) (bytes : payload -> list B) (decode : list B -> option payload),
+    (forall p, decode (bytes p) = Some p) ->
+    (forall p j, j < length (bytes p) -> decode (firstn j (bytes p)) = None) ->
+    decode [] = None ->
+  forall (tops : list top) (a0 : fstate) (d0 : dset),
+    train_reusable a0 d0 tops = true ->
+  forall c0 : cstate B,
+    ahnd a0 = None -> chnd c0 = None -> (forall f, classify decode (cfs c0) f = afs a0 f) ->
+  forall n j, exists v,
+    (forall f, classify decode (cview (cexec bytes (tfiles (firstn n tops)) c0) j) f = v f)
+    /\ run_ok (closed v) (dexec (firstn n tops) d0) tops = true.
+Proof.
+  intros B bytes decode H1 H2 H3 tops a0 d0 Hok c0 Ha Hc Hv.
+  exact (train_reusable_sound B bytes decode H1 H2 H3 tops a0 d0 Hok c0 (sim_closed B bytes decode c0 a0 Ha Hc Hv)).
+Qed.
+Print Assumptions C11_train_reusable_sound.
+
+(* today's trainings (guarded makedirs in ImportanceFlowProposal.train / FlowProposal.train, exist_ok in
+   FlowModel.train, then save_weights) pass: importance-sampler levels 0..3 with level n absent / torn /
+   stale and the directory absent / present, standard-sampler blocks 0..2 *)
+Theorem C11_train_today_reusable : train_reusable_all train_ops_today = true.
+Proof. exact train_today_reusable. Qed.
+Print Assumptions C11_train_today_reusable.
+
+(* refuted variant: a bare os.makedirs(level_output).  The first run is fine; killed once the directory
+   exists, the retraining raises FileExistsError - on every later resume too *)
+Theorem C11_train_bare_mkdir_refuted :
+  let tops := train_ops_bare_mkdir (DLvl 0) (Base (Lvl 0)) (WtP 6) in
+  run_ok (closed empty_fs) no_dirs tops = true
+  /\ exists i, i < length (tcrash (closed empty_fs) no_dirs tops)
+       /\ (let vd := nth i (tcrash (closed empty_fs) no_dirs tops) (empty_fs, no_dirs) in
+           run_ok (closed (fst vd)) (snd vd) tops = false).
+Proof. exact train_bare_mkdir_refuted. Qed.
+Print Assumptions C11_train_bare_mkdir_refuted.
+
 (* non-vacuity: the decoder hypotheses are satisfiable, the families are not empty, and the
    concrete semantics does what one expects on safe_file_dump(save_existing=True) *)
 Definition ex_bytes (p : payload) : list (payload + unit) := [inl p; inr tt].
